@@ -86,7 +86,7 @@ func c14Gen(tier string, seed int64) []fw.Case {
 	var cs []fw.Case
 	fd, td, parts, nrand, ndisp := 3, 4, 8, 25000, 600
 	if tier == "thorough" {
-		fd, td, parts, nrand, ndisp = 4, 5, 32, 400000, 12000
+		fd, td, parts, nrand, ndisp = 4, 5, 32, 3000000, 200000
 	}
 	cs = append(cs, fw.Mk("validity-exhaustive", c14Params{Mode: "valid", Depth: fd + 1}))
 	for i := 0; i < parts; i++ {
